@@ -317,5 +317,58 @@ def alltoallPair (blocks : List (List (List α))) (rank : Nat) : Option (List (O
   let np := blocks.length
   if isPow2 np then some (pairRounds blocks rank np (List.replicate np none)) else none
 
+/-- ### reduce flat tree (reduce-flat-tree.cpp)
+```
+  if (rank != root) { send(sbuf, root); return 0; }
+  if (rank == size-1) sendrecv(sbuf -> rbuf) else recv(rbuf, size-1);          // rbuf = x[size-1]
+  for (i = size-2; i >= 0; --i) {
+    if (rank == i) inbuf = sbuf; else { recv(origin, i); inbuf = origin; }      // inbuf = x[i]
+    op->apply(inbuf, rbuf); }                                                   // rbuf = x[i] op rbuf
+```
+Every non-root rank sends exactly one message (its send buffer) and the root receives one message from every other
+rank, each from a named source: the matching is forced.  `flatLoop op x i acc` = the loop from index `i-1` down to 0. -/
+def flatLoop (op : α → α → α) (x : Nat → α) : Nat → α → α
+  | 0, acc => acc
+  | i+1, acc => flatLoop op x i (op (x i) acc)
+
+/-- value in the root's receive buffer (`np ≥ 1`) -/
+def reduceFlatTree (op : α → α → α) (x : Nat → α) (np : Nat) : α := flatLoop op x (np - 1) (x (np - 1))
+
+/-- ### reduce binomial tree (reduce-binomial.cpp)
+```
+  if (count == 0) return 0;
+  is_commutative = op->is_commutative();   lroot = is_commutative ? root : 0;
+  relrank = (rank - lroot + comm_size) % comm_size;
+  copy sendbuf -> recvbuf                    // (a temporary on non-root ranks)
+  mask = 1;
+  while (mask < comm_size) {
+    if ((mask & relrank) == 0) {
+      source = relrank | mask;
+      if (source < comm_size) { source = (source + lroot) % comm_size; recv(tmp_buf, source);
+        if (is_commutative) op->apply(tmp_buf, recvbuf);                         // recvbuf = tmp op recvbuf
+        else { op->apply(recvbuf, tmp_buf); copy tmp_buf -> recvbuf; } }         // recvbuf = recvbuf op tmp
+    } else { dst = ((relrank & ~mask) + lroot) % comm_size; send(recvbuf, dst); break; }
+    mask <<= 1; }
+  if (!is_commutative && root != 0) { if (rank == 0) send(recvbuf, root); else if (rank == root) recv(recvbuf, 0); }
+```
+In relative ranks: `binVal k rr` = content of `recvbuf` of relative rank `rr` after the rounds at masks `1 … 2^(k-1)`
+(meaningful while `rr` is still in the loop, i.e. `rr % 2^k = 0`).  In the round at mask `2^k` it receives from
+`src = rr | 2^k = rr + 2^k` if that rank exists; the model also checks that `src` really sends to `rr` in that round:
+it is still in its loop (`src % 2^k = 0`), its bit `k` is set, and its destination `src & ~mask` is `rr`. -/
+def binVal (op : α → α → α) (comm : Bool) (g : Nat → α) (np : Nat) : Nat → Nat → α
+  | 0, rr => g rr
+  | k+1, rr =>
+    let src := rr + 2 ^ k
+    if src < np ∧ src % 2 ^ k = 0 ∧ (src / 2 ^ k) % 2 = 1 ∧ src - 2 ^ k = rr then
+      if comm then op (binVal op comm g np k src) (binVal op comm g np k rr)
+      else op (binVal op comm g np k rr) (binVal op comm g np k src)
+    else binVal op comm g np k rr
+
+/-- value in the root's receive buffer (`np ≥ 1`, `root < np`); `x r` = send buffer of absolute rank `r`.
+(For a non-commutative operator the value is computed on rank 0 and then sent to `root`.) -/
+def reduceBinomial (op : α → α → α) (comm : Bool) (x : Nat → α) (np root : Nat) : α :=
+  let lroot := if comm then root else 0
+  binVal op comm (fun d => x ((d + lroot) % np)) np (log2up np) 0
+
 end Sched
 end SgVerif.C29
